@@ -23,6 +23,7 @@ type KV struct {
 }
 
 type Dir struct {
+	HasFiles bool // a database was opened here: the directory contains files (LOCK, LOG, MANIFEST, ...)
 	Exists bool
 	KV     []KV
 	Locked bool // an open DB holds the LOCK file
@@ -153,7 +154,7 @@ func dmRename(oldp, newp string) error {
 	if effect("rename " + oldp + " -> " + newp) {
 		return NewError("rename: injected failure")
 	}
-	Disk[newp] = &Dir{Exists: true, KV: o.KV, Locked: o.Locked, IsFile: o.IsFile}
+	Disk[newp] = &Dir{Exists: true, KV: o.KV, Locked: o.Locked, IsFile: o.IsFile, HasFiles: o.HasFiles}
 	Disk[oldp] = &Dir{}
 	afterEffect()
 	return nil
@@ -182,6 +183,7 @@ func dmOpenFile(path string, o *opt.Options) (*leveldb.DB, error) {
 	}
 	d.Exists = true
 	d.Locked = true
+	d.HasFiles = true
 	db := new(leveldb.DB)
 	dbs[db] = &dbState{path: path}
 	afterEffect()
@@ -369,6 +371,10 @@ func dmSameFile(a, b os.FileInfo) bool {
 // WorkDir is the one directory whose children can be listed.
 var WorkDir = "/work"
 
+// dmWalk follows path/filepath.Walk (Go 1.23): the names of a directory are read BEFORE the callback
+// is called for it; unless the callback returns SkipDir every name is lstat'ed afterwards, and an
+// lstat failure (the callback removed the directory) is handed to the callback, whose error aborts
+// the whole walk.
 func dmWalk(root string, fn filepath.WalkFunc) error {
 	err := fn(root, finfo{baseName(root), root, true}, nil)
 	if err != nil {
@@ -377,7 +383,6 @@ func dmWalk(root string, fn filepath.WalkFunc) error {
 		}
 		return err
 	}
-	// snapshot of the children (the callback may delete entries)
 	var kids []string
 	for p, d := range Disk {
 		if d.Exists && strings.HasPrefix(p, root+"/") && !strings.Contains(p[len(root)+1:], "/") {
@@ -389,9 +394,33 @@ func dmWalk(root string, fn filepath.WalkFunc) error {
 		if d == nil || !d.Exists {
 			continue
 		}
-		err := fn(p, finfo{baseName(p), p, !d.IsFile}, nil)
-		if err != nil && err != filepath.SkipDir {
+		isDir := !d.IsFile
+		hadFiles := d.HasFiles
+		err := fn(p, finfo{baseName(p), p, isDir}, nil)
+		if err == filepath.SkipDir {
+			continue
+		}
+		if err != nil {
 			return err
+		}
+		if isDir {
+			// the walk descends: children read before the callback ran
+			if hadFiles {
+				if nd := Disk[p]; nd == nil || !nd.Exists {
+					if e := fn(p+"/LOCK", nil, NewError("lstat: no such file or directory")); e != nil && e != filepath.SkipDir {
+						return e
+					}
+				} else if e := fn(p+"/LOCK", finfo{"LOCK", p + "/LOCK", false}, nil); e != nil && e != filepath.SkipDir {
+					return e
+				}
+			}
+			for q, qd := range Disk {
+				if qd.Exists && strings.HasPrefix(q, p+"/") && !strings.Contains(q[len(p)+1:], "/") {
+					if e := fn(q, finfo{baseName(q), q, !qd.IsFile}, nil); e != nil && e != filepath.SkipDir {
+						return e
+					}
+				}
+			}
 		}
 	}
 	return nil
